@@ -72,7 +72,7 @@ check("C11", "exploration",
       BASE_NOTE, "deterministic simulation: operation histories vs reference merge model + signal injection at seeded scheduler steps vs pending-flag model", "DESIGN.md section 4 C11")
 
 check("C19", "exploration",
-      "Differential check whose deciding step stays inside the simulator: generated programs (redirections, descriptor duplication/closing, cd, globbing incl. hidden files, pipelines, command substitution, subshells, & + wait, traps with self-signals, signals to children, umask and modes, symlinks, a named FIFO, error cases) are first run on the simulated OS under the FIFO schedule and seeded schedules with preemption; only programs whose stdout, status and file tree are the same under every schedule (confluent) are run - twice - on the real kernel through the same shell glue and probe built-ins on RealSystem in a scratch directory, and compared with the simulated outcome (stdout bytes, exit status, stderr emptiness, file tree with contents and permission bits). Divergences are minimised at once so that their key names the operation involved; four modelling limits of the simulated file system are listed as known findings.",
+      "Differential check whose deciding step stays inside the simulator (plus, underneath it, an engine that issues the same seeded sequences of file-system and descriptor calls - in the shapes the shell uses - through the yash_env::system traits to VirtualSystem and, in a child process in a scratch directory, to RealSystem, and compares every result): generated programs (redirections, descriptor duplication/closing, cd, globbing incl. hidden files, pipelines, command substitution, subshells, & + wait, traps with self-signals, signals to children, umask and modes, symlinks, a named FIFO, error cases) are first run on the simulated OS under the FIFO schedule and seeded schedules with preemption; only programs whose stdout, status and file tree are the same under every schedule (confluent) are run - twice - on the real kernel through the same shell glue and probe built-ins on RealSystem in a scratch directory, and compared with the simulated outcome (stdout bytes, exit status, stderr emptiness, file tree with contents and permission bits). Divergences are minimised at once so that their key names the operation involved; four modelling limits of the simulated file system are listed as known findings.",
       "The real execution is observed, not simulated: it is confined to programs the simulator has shown schedule-independent and repeated twice (non-reproducible programs are discarded and counted). Not covered: execve, SIGPIPE, terminals/sessions, wall-clock timing, permission-denied cases (root), pids, error-message wording.",
       "deterministic simulation establishes confluence; differential comparison of confluent programs against the real kernel", "DESIGN.md section 4 C19")
 
